@@ -230,6 +230,26 @@ impl Clone for IntPartition {
 }
 
 
+#[cfg(rust_dsymbols_verif)]
+impl<T> Partition<T> where T: Clone + Eq + Hash {
+    /// Verification hook: copies of (elements, parent, rank).
+    pub fn verif_snapshot(&self) -> (Vec<T>, Vec<usize>, Vec<usize>) {
+        let p = unsafe { &*self._impl.get() };
+        (p.elements.clone(), p.parent.clone(), p.rank.clone())
+    }
+}
+
+
+#[cfg(rust_dsymbols_verif)]
+impl IntPartition {
+    /// Verification hook: copies of (parent, rank).
+    pub fn verif_snapshot(&self) -> (Vec<usize>, Vec<usize>) {
+        let p = unsafe { &*self._impl.get() };
+        (p.parent.clone(), p.rank.clone())
+    }
+}
+
+
 #[test]
 pub fn test_partition() {
     let p = {
